@@ -85,11 +85,16 @@ def run_case(case):
         other_trx = next((t.uid for t in trx if t.uid not in (src, dst)), None)
         paths = all_paths[(src, dst)]
         shortest = min(L for _, L in paths)
-        for inc in lists + [w for w in walks.get((src, dst), []) if all(u in line_uids for u in w)]:
-            for hop in (HOPS if inc else ['STRICT']):
-                if hop == 'MIXED' and len(inc) < 2:
+        # the destination transceiver may close the include list (it is then dropped together with its own hop type)
+        with_dst = [(x, dst) for x in cands] + [(dst,)]
+        for inc in lists + [w for w in walks.get((src, dst), []) if all(u in line_uids for u in w)] + with_dst:
+            for hop in (HOPS + ['MIXED_R'] if inc else ['STRICT']):
+                if hop in ('MIXED', 'MIXED_R') and len(inc) < 2:
                     continue
-                hops = [hop] * len(inc) if hop != 'MIXED' else ['LOOSE' if i % 2 == 0 else 'STRICT' for i in range(len(inc))]
+                if hop == 'MIXED_R' and inc[-1] != dst:
+                    continue
+                hops = [hop] * len(inc) if not hop.startswith('MIXED') else \
+                    [('LOOSE', 'STRICT')[(i + (hop == 'MIXED_R')) % 2] for i in range(len(inc))]
                 include = list(zip(inc, hops))
                 transitions += 1
                 where = f'{src}->{dst} include {include} on graph {case["edges"]} ({case["lengths"]}, {case["style"]})'
@@ -97,6 +102,9 @@ def run_case(case):
                 # model of the route-list clean-up
                 unknown_strict = any(u not in by_uid and h == 'STRICT' for u, h in include)
                 eff = [(u, h) for u, h in include if u in by_uid]
+                if eff and eff[-1][0] == dst:
+                    eff = eff[:-1]
+                    tags['destination-closes-include-list'] = 1
                 try:
                     rqs = requests_from_json(doc, equipment)
                     rqs = correct_json_route_list(net, rqs)
@@ -186,6 +194,38 @@ def run_case(case):
                 break
         if len(viol) > 12:
             break
+    # requests built through the API without any route list (as a library user would), one after the other in this process:
+    # each gets the unconstrained shortest route to ITS destination
+    if len(viol) <= 12:
+        from gnpy.core.equipment import trx_mode_params
+        from gnpy.core.utils import dbm2watt
+        from gnpy.topology.request import PathRequest
+        for k, (src, dst) in enumerate(pairs):
+            params = {'request_id': f'api{k}', 'source': src, 'destination': dst, 'bidir': False, 'trx_type': 'Voyager',
+                      'trx_mode': 'mode 1', 'format': 'mode 1', 'spacing': 50e9, 'path_bandwidth': 100e9, 'nb_channel': 20,
+                      'power': dbm2watt(0), 'tx_power': dbm2watt(0), 'effective_freq_slot': [{'N': None, 'M': None}]}
+            params.update(trx_mode_params(equipment, 'Voyager', 'mode 1', True))
+            transitions += 1
+            where = f'API-built request {src}->{dst} (no route lists; request number {k + 1} in this process) on graph ' \
+                    f'{case["edges"]} ({case["lengths"]}, {case["style"]})'
+            try:
+                rq = PathRequest(**params)
+                path = compute_path_dsjctn(net, equipment, [rq], [])[0]
+            except Exception as exc:  # noqa
+                viol.append(dict(fingerprint=f'api-route-computation-raised:{type(exc).__name__}', what=f'{where}: {exc}'))
+                break
+            shortest = min(L for _, L in all_paths[(src, dst)])
+            probs = rg.valid_path(net, path, src, dst) if path else ['no route']
+            if probs:
+                viol.append(dict(fingerprint='api-request-not-routed', what=f'{where}: {probs[0]} (reason '
+                                 f'{getattr(rq, "blocking_reason", None)}, route {[e.uid for e in path][:4]}...)'))
+                break
+            if rg.fibre_length(path) > shortest + 0.01 * len(path) + 1e-6:
+                viol.append(dict(fingerprint='api-route-not-shortest', what=f'{where}: {rg.fibre_length(path) / 1e3:.3f} km, shortest '
+                                 f'{shortest / 1e3:.3f} km'))
+                break
+            traces += 1
+        tags['api-requests'] = 1
     for v in viol:
         v['case'] = case
     return {'violations': viol[:10], 'transitions': transitions, 'traces': traces, 'unjudged': unjudged,
